@@ -182,8 +182,7 @@ Definition verdict (c : case) : Z * Z :=
       | CDecl => declined
       | _ =>
           let i := call true true 12 tys variadic args in
-          judge cres_eqb o m i (if existsb (fun a => match a with JFun _ => true | _ => false end) args then 23
-                                else if cres_eqb (call true false 12 tys variadic args) m then 11 else 1)
+          judge cres_eqb o m i (if cres_eqb (call true false 12 tys variadic args) m then 11 else 1)
       end
   | CRet vals isarr o =>
       let e := (match vals with [] => [JoUndef] | _ => ret_values vals end,
@@ -192,7 +191,8 @@ Definition verdict (c : case) : Z * Z :=
   | CPinned cls how => judge Z.eqb how 0 1 cls
   | CRegress cls how => judge Z.eqb how 1 1 cls
   | CReent calls log err =>
-      let e := (flat_map (ev_call 8) calls, 0) in
+      let r := ev_script 8 calls in
+      let e := (fst r, if snd r then 0 else 6) in
       judge (fun a b => list_eqb (fun x y => (fst x =? fst y) && zlist_eqb (snd x) (snd y)) (fst a) (fst b) && (snd a =? snd b))
             (log, err) e e 0
   | CPtr init ops o => judge obs_eqb o (pxrun false init ops) (pxrun true init ops) 15
